@@ -88,3 +88,80 @@ def _(rng):
     ds = xr.Dataset({"cost_volume": (["row", "col", "disp"], cv)},
                     coords={"row": np.arange(h), "col": np.arange(w), "disp": np.arange(d0, d0 + nd).astype(np.float64)})
     return {"cost_volume": ds}
+
+
+@spec
+def first_min(cost, y, x, r) -> "bool":
+    # r is the FIRST index whose cost is the minimum of the pixel's computable (non-NaN) costs
+    return (not isnan(cost[y, x, r])
+            and all(isnan(cost[y, x, k]) or cost[y, x, r] <= cost[y, x, k] for k in range(cost.shape[2]))
+            and all(isnan(cost[y, x, k]) or cost[y, x, k] > cost[y, x, r] for k in range(r)))
+
+
+@spec
+def first_max(cost, y, x, r) -> "bool":
+    return (not isnan(cost[y, x, r])
+            and all(isnan(cost[y, x, k]) or cost[y, x, r] >= cost[y, x, k] for k in range(cost.shape[2]))
+            and all(isnan(cost[y, x, k]) or cost[y, x, k] < cost[y, x, r] for k in range(r)))
+
+
+@contract("pandora.disparity.disparity.WinnerTakesAll.to_disp", props=["C03"])
+def _(self, cv, img_left, img_right):
+    types(self={"@attrs": {"_invalid_disparity": "float"}},
+          cv={"vars": {"cost_volume": "f32[:,:,:]", "validity_mask": "u16[:,:]", "confidence_measure": "f32[:,:,:]"},
+              "coords": {"disp": "f64[:]", "row": "i64[:]", "col": "i64[:]"}, "attrs": {"type_measure": "str"}},
+          img_left="opaque", img_right="opaque")
+    requires("shapes", cv.coords["disp"].data.shape[0] == cv["cost_volume"].data.shape[2], cv["cost_volume"].data.shape[2] >= 1,
+             cv["validity_mask"].data.shape[0] == cv["cost_volume"].data.shape[0],
+             cv["validity_mask"].data.shape[1] == cv["cost_volume"].data.shape[1])
+    requires("finite_or_nan", all(not isinf(cv["cost_volume"].data[y, x, k]) for y in range(cv["cost_volume"].data.shape[0])
+                                  for x in range(cv["cost_volume"].data.shape[1]) for k in range(cv["cost_volume"].data.shape[2])))
+    requires("measure", cv.attrs["type_measure"] == "min" or cv.attrs["type_measure"] == "max")
+    assigns(cv)
+    raises_never()
+    # C03: a pixel with a computable cost gets the sampled disparity of the first best cost; others exactly invalid_disparity
+    ensures("winner", all(
+        (eq(result["disparity_map"].data[y, x], self._invalid_disparity)
+         if all(isnan(cv["cost_volume"].data[y, x, k]) for k in range(cv["cost_volume"].data.shape[2])) else
+         any(eq(result["disparity_map"].data[y, x], cv.coords["disp"].data[r])
+             and (first_max(cv["cost_volume"].data, y, x, r) if cv.attrs["type_measure"] == "max"
+                  else first_min(cv["cost_volume"].data, y, x, r))
+             for r in range(cv["cost_volume"].data.shape[2])))
+        for y in range(cv["cost_volume"].data.shape[0]) for x in range(cv["cost_volume"].data.shape[1])))
+    # the step leaves the cost volume values unchanged (NaN substituted then restored)
+    ensures("cost_volume_unchanged", all(eq(cv["cost_volume"].data[y, x, k], old(cv["cost_volume"].data)[y, x, k])
+                                         for y in range(cv["cost_volume"].data.shape[0]) for x in range(cv["cost_volume"].data.shape[1])
+                                         for k in range(cv["cost_volume"].data.shape[2])))
+    # validity flags and confidence bands are carried over unaltered
+    ensures("validity_mask_carried", all(result["validity_mask"].data[y, x] == old(cv["validity_mask"].data)[y, x]
+                                         for y in range(cv["cost_volume"].data.shape[0]) for x in range(cv["cost_volume"].data.shape[1])))
+    ensures("confidence_carried", all(eq(result["confidence_measure"].data[y, x, b], old(cv["confidence_measure"].data)[y, x, b])
+                                      for y in range(cv["confidence_measure"].data.shape[0])
+                                      for x in range(cv["confidence_measure"].data.shape[1])
+                                      for b in range(cv["confidence_measure"].data.shape[2])))
+    ensures("interval", eq(result["disparity_interval"].data[0], cv.coords["disp"].data[0])
+            and eq(result["disparity_interval"].data[1], cv.coords["disp"].data[cv.coords["disp"].data.shape[0] - 1]))
+
+
+@sampler("pandora.disparity.disparity.WinnerTakesAll.to_disp")
+def _(rng):
+    import xarray as xr
+    from pandora.disparity.disparity import WinnerTakesAll
+    shapes = [(1, 1), (2, 3), (3, 101), (5, 7), (4, 4)]
+    h, w = shapes[rng.integers(0, len(shapes))]
+    nd = int([1, 2, 5, 9][rng.integers(0, 4)])
+    cost = rng.integers(0, 4, size=(h, w, nd)).astype(np.float32)
+    cost[rng.random((h, w, nd)) < 0.3] = np.nan
+    cost[rng.random((h, w)) < 0.2] = np.nan
+    d0 = int(rng.integers(-4, 3))
+    measure = ["min", "max"][rng.integers(0, 2)]
+    ds = xr.Dataset({"cost_volume": (["row", "col", "disp"], cost),
+                     "validity_mask": (["row", "col"], rng.integers(0, 2048, size=(h, w)).astype(np.uint16)),
+                     "confidence_measure": (["row", "col", "indicator"], rng.random((h, w, 2)).astype(np.float32))},
+                    coords={"row": np.arange(h), "col": np.arange(w), "disp": np.arange(d0, d0 + nd).astype(np.float64),
+                            "indicator": ["a", "b"]},
+                    attrs={"type_measure": measure})
+    inv = [np.nan, -9999.0, 0.0][rng.integers(0, 3)]
+    me = WinnerTakesAll.__new__(WinnerTakesAll)
+    me._invalid_disparity = inv
+    return {"self": me, "cv": ds, "img_left": None, "img_right": None}
